@@ -285,3 +285,75 @@ func init() {
 	register("c03seq", cmdC03Seq)
 	register("c03conc", cmdC03Conc)
 }
+
+// c03copy: copies taken WHILE other goroutines settle the source must be fresh messages: their
+// first Ack/Nack returns (no call blocks), decides them, and closes exactly the matching channel.
+func cmdC03Copy(args []string) error {
+	fs, out, _ := newFlags("c03copy")
+	n := fs.Int("n", 3000, "copies")
+	fs.Parse(args)
+	type result struct {
+		Copies  int    `json:"copies"`
+		Blocked int    `json:"blocked"` // first settle call on a copy did not return within the watchdog
+		Wrong   int    `json:"wrong"`   // returned false / wrong channel state
+		Detail  string `json:"detail,omitempty"`
+	}
+	res := result{}
+	src := message.NewMessage("src", []byte("p"))
+	stop := make(chan struct{})
+	var wg sync.WaitGroup
+	for g := 0; g < 2; g++ {
+		wg.Add(1)
+		go func(g int) {
+			defer wg.Done()
+			for {
+				select {
+				case <-stop:
+					return
+				default:
+				}
+				if g == 0 {
+					src.Ack()
+				} else {
+					src.Nack()
+				}
+			}
+		}(g)
+	}
+	for i := 0; i < *n && res.Blocked == 0; i++ {
+		c := src.Copy()
+		done := make(chan bool, 1)
+		ack := i%2 == 0
+		go func() {
+			if ack {
+				done <- c.Ack()
+			} else {
+				done <- c.Nack()
+			}
+		}()
+		select {
+		case ok := <-done:
+			res.Copies++
+			closed := func(ch <-chan struct{}) bool {
+				select {
+				case <-ch:
+					return true
+				default:
+					return false
+				}
+			}
+			if !ok || closed(c.Acked()) != ack || closed(c.Nacked()) == ack {
+				res.Wrong++
+				res.Detail = fmt.Sprintf("copy %d: first settle (ack=%v) returned %v, acked closed=%v nacked closed=%v", i, ack, ok, closed(c.Acked()), closed(c.Nacked()))
+			}
+		case <-time.After(2 * time.Second):
+			res.Blocked++
+			res.Detail = fmt.Sprintf("copy %d taken while the source was being settled: its first %s() did not return within 2 s", i, map[bool]string{true: "Ack", false: "Nack"}[ack])
+		}
+	}
+	close(stop)
+	wg.Wait()
+	return writeJSON(*out, res)
+}
+
+func init() { register("c03copy", cmdC03Copy) }
